@@ -398,3 +398,66 @@ def r5f(ctx: Ctx) -> list[Ob]:
         else:
             out.append(viol("R5f", q, "range", f"forward computes {p!r} (S = sigmoid(x)): its range runs from {lo!r} to {hi!r}, not from vmin to vmax as the symbolic operator documents", fwd.loc))
     return out
+
+
+# ------------------------------------------------------------------------------------------ R5g
+STRICT_DTYPE_OPS = {"matmul", "mm", "bmm", "einsum", "tensordot", "dot", "mv", "baddbmm", "addmm"}
+PROMOTERS = {"promote_types", "result_type"}
+CASTS = {"to", "type", "type_as"}
+
+
+def r5g(ctx: Ctx) -> list[Ob]:
+    """R5g -- a parameter operator that contracts several parameter tensors promotes them first.
+
+    ``torch.matmul`` / ``einsum`` (with a contracted index) / ``tensordot`` raise when their operands
+    differ in dtype; the element-wise operators and ``kron`` promote.  The parameter graph of a
+    circuit may mix real and complex tensors (a real permutation matrix and a conjugated complex
+    weight, a real and a complex embedding of a product): un-optimized compilation evaluates them with
+    promoting operations (and the semirings cast), while the optimizer's rewrites (sum-collapse:
+    MatMul; ReduceSum(OuterProduct): Einsum) go through the strict ones -- the same circuit then raises
+    under optimize=True only.  Every ``forward`` of a parameter operator with two or more tensor
+    inputs that calls a strict contraction has to feed it operands cast to a common dtype
+    (``promote_types`` / ``result_type`` + ``.to``, or ``.to(other.dtype)`` / ``type_as``)."""
+    out: list[Ob] = []
+    base = ctx.repo.cls(T_POP)
+    for c in ctx.repo.subclasses(base):
+        f = c.methods.get("forward")
+        if f is None:
+            continue
+        ps = [p for p in f.call_params if p.kind in ("pos", "vararg")]
+        if len(ps) < 2 and not any(p.kind == "vararg" for p in ps):
+            continue
+        ld = LocalDefs(f.node)
+        for n in walk_no_nested(f.node):
+            strict = None
+            args: list[ast.AST] = []
+            if isinstance(n, ast.Call):
+                nm = n.func.attr if isinstance(n.func, ast.Attribute) else (n.func.id if isinstance(n.func, ast.Name) else "")
+                if nm in STRICT_DTYPE_OPS:
+                    strict = nm
+                    args = list(n.args) + ([n.func.value] if isinstance(n.func, ast.Attribute) and (dotted(n.func.value) or "") not in ("torch", "F", "torch.linalg") else [])
+            elif isinstance(n, ast.BinOp) and isinstance(n.op, ast.MatMult):
+                strict = "@"
+                args = [n.left, n.right]
+            if strict is None:
+                continue
+            loc = f"{f.module.relpath}:{n.lineno}"
+            inst = f"promote:{strict}"
+            seen_names = {x.id for a in args for ex in [a, *ld.expand(a)] for x in ast.walk(ex) if isinstance(x, ast.Name)}
+            # how many of the tensor inputs reach the contraction
+            reach = [p.name for p in ps if p.name in seen_names]
+            if len(reach) < 2 and not any(p.kind == "vararg" and p.name in seen_names for p in ps):
+                out.append(ok("R5g", c.qualname, inst, "a single tensor input reaches the contraction (nothing to promote)", loc, nontrivial=False))
+                continue
+            calls = {
+                (k.func.attr if isinstance(k.func, ast.Attribute) else getattr(k.func, "id", ""))
+                for a in args
+                for ex in [a, *ld.expand(a)]
+                for k in ast.walk(ex)
+                if isinstance(k, ast.Call)
+            }
+            if calls & CASTS or calls & PROMOTERS:
+                out.append(ok("R5g", c.qualname, inst, f"operands of `{strict}` are cast to a common dtype ({sorted(calls & (CASTS | PROMOTERS))})", loc))
+            else:
+                out.append(viol("R5g", c.qualname, inst, f"`{unparse(n)[:70]}` contracts several parameter tensors without promoting them to a common dtype: {strict} raises for a real and a complex operand, which the un-optimized graph (element-wise / kron / semiring casts) evaluates -- the optimizer's rewrite then makes the circuit raise under optimize=True only", loc))
+    return out
